@@ -7,6 +7,13 @@ class Boom(Exception):
     """ A picklable exception with a payload """
 
 
+class BadInit(Exception):
+    """ An exception that pickles but cannot be rebuilt from its args (two-argument constructor): in a real pool
+        the parent's result handler thread dies on it """
+    def __init__(self, first: Any, second: Any) -> None:
+        super().__init__(f"{first}: {second}")
+
+
 class Unpicklable:
     """ A result value that cannot cross the process boundary """
     def __reduce__(self) -> Any:
@@ -28,6 +35,8 @@ def task(spec: dict, *extra: Any) -> Any:
     sched = simpool.CURRENT
     if sched is not None and not sched.in_worker and spec.get("ms") is not None:
         sched.now += float(spec["ms"]) / 1000.0 + (3600.0 if spec.get("stall") else 0.0)
+    if spec.get("raise") == "BadInit":
+        raise BadInit("task", spec["i"])
     if spec.get("raise"):
         raise _EXC[spec["raise"]](f"task {spec['i']} failed")
     if spec.get("unpicklable_result"):
@@ -53,9 +62,12 @@ def touch_record(record: Any) -> Any:
 
 
 class FakeGeneFinding:
-    """ stands in for the genefinding module in pre_process_sequences: deterministic ORF-like genes """
+    """ stands in for the genefinding module in pre_process_sequences: deterministic ORF-like genes;
+        like the real tools it fails with a ValueError on records it cannot handle (ids ending in 'bad') """
     @staticmethod
     def run_on_record(record: Any, options: Any) -> None:
+        if str(record.id).endswith("bad"):
+            raise ValueError(f"gene finding failed for {record.id}: sequence not usable")
         from antismash.common.secmet.features import CDSFeature
         from antismash.common.secmet.locations import FeatureLocation
         length = len(record.seq)
